@@ -18,7 +18,7 @@ def cases(tier, seed):
     out = []
     def add(shape, r, poly=True, flip=False, tri=True, **kw):
         c = {"shape": shape, "dims": [1, 1, 1], "poly": poly, "flip": flip, "triangulate": tri, "lmin_ratio": r, "stretch": [1, 1, 1],
-             "pos": [rnd.choice([0.0, 3e-5, -1e-3]) for _ in range(3)], "scale": rnd.choice([1e-5, 1.0]), "seed": seed + len(out),
+             "pos": [rnd.choice([0.0, 3e-5, -1e-3]) for _ in range(3)], "scale": rnd.choice([1e-5, 1.0, 1.5e-6, 4e-7, 250.0]), "seed": seed + len(out),
              "vtol": max(0.1, 3 * r), "btol": 1.0, "stol": 1.0, "closed": shape not in ("open", "nonmanifold")}
         c.update(kw)
         out.append(c)
@@ -37,6 +37,11 @@ def cases(tier, seed):
     add("sphere", 0.2, False, True, tri=False, level=1)
     add("box", 0.2, False, True, tri=False, dims=[2, 2, 1])
     add("box", 0.2, True, False, tri=False, dims=[1, 1, 1])        # polygonal input without triangulation: must be refused
+    # nucleus-sized and very large cells given inside-out (the orientation repair must not depend on the absolute size)
+    add("box", 0.2, False, True, tri=False, dims=[1, 1, 1], scale=1e-6)
+    add("box", 0.3, True, True, dims=[1, 1, 1], scale=2e-6)
+    add("sphere", 0.2, False, True, tri=False, level=1, scale=5e-7)
+    add("box", 0.3, True, True, dims=[1, 2, 1], scale=4e3)
     # negatives: open and non-manifold inputs
     add("open", 0.2, True, False)
     add("open", 0.2, False, False, tri=False)
